@@ -227,6 +227,10 @@ def run_history(fx, pool, hist, rec, hh):
                 eff = uri.object
                 if oid and eff != oid:
                     return fail("registered-under-other-id", "asked for id %r, uri says %r" % (oid, eff), step)
+                if not oid and (eff in model.ids or eff in ("Pyro.Daemon", "hub")) and (eff not in model.ids or deref(model.ids[eff]) is not obj):
+                    # a registration that names no id gets a generated one: it can never land on an id somebody else holds
+                    return fail("registration-without-id-took-over-id", "register(<object>, no id, force=%r, weak=%r) was given the id %r, which is held by another registration (registered: %r)" % (
+                        force, weak, eff, sorted(model.ids)), step)
                 if not oid:
                     gen_ids.append(eff)
                 displaced = deref(model.ids[eff]) if eff in model.ids else None
